@@ -250,6 +250,9 @@ impl Reader {
                     .ok_or(format::Error::TickOverflow)?
                     .checked_add(dt)
                     .ok_or(format::Error::TickOverflow)?;
+                // An explicit tick skip also restarts the implicit tick
+                // detection (doc/teehistorian.md: `implicit_cid = None`).
+                self.prev_player_cid = None;
                 if self.in_tick {
                     self.in_tick = false;
                     Item::TickEnd(old_tick)
